@@ -6,6 +6,7 @@ From TV Require Import gen.IRAst gen.Names gen.ExhaustAst gen.Exhaust gen.IterGr
 From TV Require Import gen.AppendGen gen.GenerateIR.
 From TV Require proofs.Certs proofs.Certs3Defs model.Graphs proofs.GenGraphs_base proofs.GenGraphs_equiv.
 From TV Require Import proofs.GenGenIR_equiv.
+From TV Require spec.IRSem proofs.Certs2Base proofs.Certs2Input proofs.GenGenIR_sound.
 Import ListNotations.
 
 (** (a) for EVERY definition, EVERY graph, every initial capacity: the regenerated compute kernel contains no allocation
@@ -143,3 +144,17 @@ Theorem TIE_genir_library_graphs_outputs : forall fval a fs gs tr,
   Forall (fun g => graph_outputs_of_t (proofs.GenGraphs_base.up_tref tr) (proofs.GenGraphs_base.up_graph fval g) = true) gs.
 Proof. exact gen_library_graphs_outputs. Qed.
 Print Assumptions TIE_genir_library_graphs_outputs.
+
+(** (b), the closure-free route: the conclusion of CERT_input (Certs2Input.input_safe_sound) holds for ANY explicit taint set
+    [T] that contains the input parameters and for which [safe_stmt T body = true] -- no taint closure, no fixpoint iteration.
+    What remains for the generator is therefore [safe_stmt T1 body] for the explicit T1 of design.d/TIE_genir.md. *)
+Theorem TIE_genir_input_safe_sound_T : forall T name ps rt body,
+  (forall x, In x (proofs.Certs2Base.param_names (tl ps)) -> In x T) -> proofs.Certs2Input.safe_stmt T body = true ->
+  forall fuel args st, proofs.Certs2Input.out_clean st args ->
+    match spec.IRSem.call fuel (FunctionDefinition name ps rt body) args st with
+    | spec.IRSem.Fail x => x <> spec.Num.EWriteInput
+    | spec.IRSem.Returned st' _ _ => proofs.Certs2Input.out_clean st' args
+    | _ => True
+    end.
+Proof. exact proofs.GenGenIR_sound.input_safe_sound_T. Qed.
+Print Assumptions TIE_genir_input_safe_sound_T.
